@@ -388,6 +388,19 @@ fn cells(tier: &str) -> Vec<Value> {
     for (k, comp) in ["none", "lz4", "gzip"].into_iter().enumerate() {
         push(codecs[k % 3], comp, None, 4, REFUSED | 24, &mut v);
     }
+    // items whose frame is within a few bytes of the frame limit (an unbatched, uncompressed item
+    // travels with 9 bytes of payload framing: 1_048_567 is the largest that fits), and batches of
+    // two whose frame straddles the limit (33 bytes of framing; over the limit they go one by one)
+    {
+        let near: Vec<usize> = if tier == "thorough" { (1_048_554..=1_048_567).collect() } else { vec![1_048_558, 1_048_559, 1_048_563, 1_048_567] };
+        for (k, s) in near.into_iter().enumerate() {
+            push(if k % 4 == 3 { "string" } else { "bytes" }, "none", None, 2, s, &mut v);
+        }
+        let halves: Vec<usize> = if tier == "thorough" { (524_264..=524_274).collect() } else { vec![524_267, 524_269, 524_271, 524_272] };
+        for s in halves {
+            push("bytes", "none", Some((2, hour)), 2, s, &mut v);
+        }
+    }
     // valid items whose batch as a whole does not fit one frame (5 x 300 KB, 4 x 300 KB twice)
     for (k, (b, n)) in [(Some((5u32, hour)), 6usize), (Some((4, hour)), 9), (Some((5, 0)), 6)].into_iter().enumerate() {
         push(codecs[k % 3], if k == 1 { "lz4" } else { "none" }, b, n, 300_000, &mut v);
@@ -490,7 +503,7 @@ pub async fn run(tier: &str, replaying: bool) -> ! {
     finish(
         rep,
         outs,
-        "every cell of codec {String, Bytes, Bincode struct} x compression {none, gzip, zlib, zstd, lz4, brotli} x batching {off; size 1,2,3,5 x interval 1h (never elapses) / 0 (always elapsed)} x message count 0..=2*size+1 x payload {0, 24 B, 100 KB, mixed (one 100 KB item between 24 B items)} in thorough; quick: every batching config x every message count with codec/compression rotating over all 18 pairs, plus mixed payload sizes under every batching config, plus every pair x {unbatched, size 2} x three payload sizes. Plus bulk cells (3000 items of 2 KiB pushed with send_all while the subscriber stays idle for 1.5 s, so the transport's back-pressure reaches the publisher; unbatched and batched) and duplicate cells (Publisher::duplicate() taken while 1..size items of a batch are pending; the duplicate sends two items and finishes before the original continues; every item of either exactly once, each publisher's in order). Plus pause cells (three items with 12 s and 3 s of silence between them: longer than the transport's idle time-out). Plus drop-after-finish cells (500 items of 8 KiB through send_all on a connection of the publisher's own, which is dropped the moment finish() has returned) refused-item cells (unbatched: an item over the frame limit is refused between valid items, which must all arrive) oversized-batch cells (valid 300 KB items whose batch as a whole exceeds the frame limit) and large compressible batches (8 x 200 KiB of text: over 1 MiB before compression, within a frame after it). Each cell: real Subscriber (attached via a warm-up barrier), real Publisher sends n items then finish(); oracle: the subscriber yields exactly the sent items, equal, in order, once, nothing else. non-trivial = at least one message",
+        "every cell of codec {String, Bytes, Bincode struct} x compression {none, gzip, zlib, zstd, lz4, brotli} x batching {off; size 1,2,3,5 x interval 1h (never elapses) / 0 (always elapsed)} x message count 0..=2*size+1 x payload {0, 24 B, 100 KB, mixed (one 100 KB item between 24 B items)} in thorough; quick: every batching config x every message count with codec/compression rotating over all 18 pairs, plus mixed payload sizes under every batching config, plus every pair x {unbatched, size 2} x three payload sizes. Plus bulk cells (3000 items of 2 KiB pushed with send_all while the subscriber stays idle for 1.5 s, so the transport's back-pressure reaches the publisher; unbatched and batched) and duplicate cells (Publisher::duplicate() taken while 1..size items of a batch are pending; the duplicate sends two items and finishes before the original continues; every item of either exactly once, each publisher's in order). Plus pause cells (three items with 12 s and 3 s of silence between them: longer than the transport's idle time-out). Plus drop-after-finish cells (500 items of 8 KiB through send_all on a connection of the publisher's own, which is dropped the moment finish() has returned) refused-item cells (unbatched: an item over the frame limit is refused between valid items, which must all arrive) at-the-limit cells (unbatched items of 1_048_558..=1_048_567 bytes, thorough every size from 1_048_554, whose frames end within 9 bytes of the frame limit, and batches of two items of 524_26x bytes each whose frame straddles it) oversized-batch cells (valid 300 KB items whose batch as a whole exceeds the frame limit) and large compressible batches (8 x 200 KiB of text: over 1 MiB before compression, within a frame after it). Each cell: real Subscriber (attached via a warm-up barrier), real Publisher sends n items then finish(); oracle: the subscriber yields exactly the sent items, equal, in order, once, nothing else. non-trivial = at least one message",
         "each cell runs against one shared in-process server on a unique topic with its own client connection",
         json!({}),
         replaying,
